@@ -1,5 +1,7 @@
 import HpxVerif.Lemmas.BmocEnc
 import HpxVerif.Lemmas.BmocPack
+import HpxVerif.Lemmas.BmocLower
+import HpxVerif.Lemmas.BmocBuilder
 
 /-!
 # C15 — BMOC builders preserve exactly what was pushed
@@ -8,8 +10,10 @@ Proved: `pack` terminates with a fixed point of the compaction pass (a further p
 lengthens the list; **`pack_sem`: for every list of valid raw entries (depth ≤ 29) the three-valued state of every cell is
 unchanged by `pack`**; `pack_wf`: well-formedness is preserved; `pack_no_four_full`: nowhere in the output do four full
 siblings remain; `to_lower_depth` rejects `new_depth ≥ depth_max`.
-Open statements (executable model tied to the code by the correspondence check: all push-sequence families ×
-capacities × depths, exhaustive universes for `pack`/`to_lower_depth`): `fixed_builder_sem`, `to_lower_depth_sem`.
+**`to_lower_depth_sem`** (kept iff it contained something; full iff inside one full cell of depth ≤ new depth; output
+well formed); **`buff_to_bmoc_sem`** (the run-length grouping covers exactly the sorted buffer, both `next_power_of_two`
+arms); **`fixed_builder_sem_of_or_spec`** (every push sequence, duplicates, order, drain schedule: exactly what was
+pushed, `None` iff nothing) relative to the specification of `BMOC::or` on equal-depth operands.
 -/
 
 namespace Hpx.C15
@@ -104,5 +108,58 @@ example : ∀ r ∈ [buildRaw 1 4 true 2, buildRaw 1 5 true 2, buildRaw 1 6 true
   intro r hr
   simp only [List.mem_cons, List.not_mem_nil, or_false] at hr
   rcases hr with rfl | rfl | rfl | rfl | rfl <;> exact validRaw_buildRaw _ (by decide) (by decide)
+
+/-! ## `to_lower_depth` -/
+
+open Hpx.Bmoc.Lower in
+/-- **lowering the depth**: for every well-formed BMOC with valid entries and `new_depth < depth_max ≤ 29` the result is
+    well formed with valid entries at `new_depth`; a coarse cell is kept **iff it contained something**; it is full
+    **iff** it lies inside one full input cell of depth `≤ new_depth`, hence **only if** every deepest cell under it was
+    full -/
+theorem to_lower_depth_sem (dm nd : Nat) (hdm : dm ≤ 29) (hnd : nd < dm) (l : List Nat) (hv : ∀ r ∈ l, ValidRaw dm r)
+    (hw : WF dm (cellsOf dm l)) :
+    toLowerDepth dm nd l = some (toLowerLoop dm nd l none) ∧
+    (WF nd (cellsOf nd (toLowerLoop dm nd l none)) ∧ ∀ r ∈ toLowerLoop dm nd l none, ValidRaw nd r) ∧
+    (∀ y, stOf nd (cellsOf nd (toLowerLoop dm nd l none)) y ≠ .abs ↔
+      ∃ x, y * 4 ^ (dm - nd) ≤ x ∧ x < (y + 1) * 4 ^ (dm - nd) ∧ stOf dm (cellsOf dm l) x ≠ .abs) ∧
+    (∀ y, stOf nd (cellsOf nd (toLowerLoop dm nd l none)) y = .full ↔
+      ∃ c ∈ cellsOf dm l, c.depth ≤ nd ∧ c.full = true ∧
+        lo dm c ≤ y * 4 ^ (dm - nd) ∧ (y + 1) * 4 ^ (dm - nd) ≤ hi dm c) ∧
+    (∀ y, stOf nd (cellsOf nd (toLowerLoop dm nd l none)) y = .full →
+      ∀ x, y * 4 ^ (dm - nd) ≤ x → x < (y + 1) * 4 ^ (dm - nd) → stOf dm (cellsOf dm l) x = .full) :=
+  ⟨(toLower_guard dm nd l).2 hnd, toLower_wf dm nd hdm hnd l hv hw, toLower_sem dm nd hdm hnd l hv hw,
+   toLower_full_iff dm nd hdm hnd l hv hw, fun y h => toLower_full_only_if dm nd hdm hnd l hv hw y h⟩
+
+/-! ## the fixed-depth builder -/
+
+open Hpx.Bmoc.Builder in
+/-- `sort_unstable(); dedup()` as modelled: strictly increasing, same members -/
+theorem sort_dedup_spec (l : List Nat) :
+    (dedupAdj (sortNat l)).Pairwise (· < ·) ∧ ∀ y, y ∈ dedupAdj (sortNat l) ↔ y ∈ l :=
+  Hpx.Bmoc.Builder.sort_dedup_spec l
+
+open Hpx.Bmoc.Builder in
+/-- **`buff_to_bmoc`**: for every strictly increasing buffer of in-range hashes (depth ≤ 29) the run-length grouping
+    (`largest_lower_cell_sequence_len`, `next_power_of_two`, both arms of the `trailing_zeros` trick) emits a
+    well-formed BMOC with valid entries, every cell carrying the builder's flag, covering exactly the buffer -/
+theorem buff_to_bmoc_sem (depth : Nat) (flag : Bool) (hd : depth ≤ 29) (buf : List Nat) (hpw : buf.Pairwise (· < ·))
+    (hlt : ∀ x ∈ buf, x < 12 * 4 ^ depth) :
+    (buffToBmoc depth flag buf).dmax = depth ∧ (∀ r ∈ (buffToBmoc depth flag buf).entries, ValidRaw depth r) ∧
+    WF depth (buffToBmoc depth flag buf).cells ∧ (∀ c ∈ (buffToBmoc depth flag buf).cells, c.full = flag) ∧
+    ∀ x, stOf depth (buffToBmoc depth flag buf).cells x = if x ∈ buf then Tri.ofFlag flag else .abs :=
+  buffToBmoc_sem depth flag hd buf hpw hlt
+
+open Hpx.Bmoc.Builder in
+/-- **the builder preserves exactly what was pushed**, for every depth ≤ 29, flag, push sequence (any order, any
+    duplicates) and drain schedule (`drainNow` after each push is arbitrary: every `Vec` capacity behaviour):
+    no panic; `None` iff nothing was pushed; otherwise a well-formed BMOC with valid entries in which exactly the pushed
+    cells carry the flag.  Relative to the specification `OrSpec` of `BMOC::or` on equal-depth operands (C08's open
+    statement `or3_sem`; the builder merges its intermediate BMOCs with `or`). -/
+theorem fixed_builder_sem_of_or_spec (hor : OrSpec) (depth : Nat) (flag : Bool) (hd : depth ≤ 29) (ps : List (Nat × Bool))
+    (hlt : ∀ p ∈ ps, p.1 < 12 * 4 ^ depth) :
+    ∃ r, runBuilder depth flag ps = some r ∧ (r = none ↔ ps = []) ∧
+      ∀ m, r = some m → m.dmax = depth ∧ (∀ e ∈ m.entries, ValidRaw depth e) ∧ WF depth m.cells ∧
+        ∀ x, stOf depth m.cells x = if x ∈ ps.map (·.1) then Tri.ofFlag flag else .abs :=
+  fixed_builder_sem hor depth flag hd ps hlt
 
 end Hpx.C15
